@@ -608,7 +608,12 @@ class DateTime(Element):
 
             gmt_offset_hours = utils.TZS[tz_name]
 
-        return utils.gmt_offset(gmt_offset_hours, int(minutes or 0))
+        gmt_offset = utils.gmt_offset(gmt_offset_hours, int(minutes or 0))
+        # int("-0") is 0, so the sign of an offset between GMT-1 and GMT
+        # (which format_datetime() writes as e.g. "-0.30") is taken from the text.
+        if gmt_offset_hours == 0 and hours is not None and hours.startswith("-"):
+            gmt_offset = -gmt_offset
+        return gmt_offset
 
     def normalize_to_gmt(self, value, gmt_offset):
         # Adjust timezone to GMT/UTC
